@@ -165,12 +165,51 @@ def num(s, pre, post=""):
     return int(s[:len(s) - len(post)] if post else s)
 
 
+# The request ids a client may send (JSON-RPC: a Number or a String): the abstract id m["id"] (what the model
+# and the reference speak of) is carried on the wire as m["wid"] when given.  0 is the first id vscode-jsonrpc issues.
+WIRE_IDS = [0, 1, "", "0", -1, 2 ** 31, 2 ** 53 + 1, 2 ** 64 + 7, -(2 ** 40), "abc", "1", "-1", "id with space",
+            "2f1b6c1e-8c3b-4c56-9f0e-0a1b2c3d4e5f", "00000000-0000-0000-0000-000000000000", "\u00e9\u4e16"]
+# The params of a custom (non-lsprotocol) method, JSON-RPC "by-name" / "by-position" / anything a client writes:
+# m["ps"] = 0 object | 1 [] | 2 [v] | 3 [v, v+1] | 4 [v, "s", null] | 5 scalar number | 6 null | 7 scalar string
+PSHAPES = 8
+
+
+def ps_value(m):
+    v = m["v"]
+    return [{"v": v}, [], [v], [v, v + 1], [v, "s", None], v, None, "s%d" % v][m.get("ps", 0)]
+
+
+def idkey(x):
+    return [type(x).__name__, x]
+
+
+def concretise(msgs, rng, first=None, shapes=True):
+    """Give every request of the sequence a wire id drawn from WIRE_IDS (injective on the abstract ids, so a
+    reused id stays reused and distinct ids stay distinct) and every custom-method message a params shape."""
+    pool = list(WIRE_IDS)
+    rng.shuffle(pool)
+    if first is not None:
+        pool.remove(first)
+        pool.insert(0, first)
+    chosen = {}
+    for m in msgs:
+        a = m.get("id")
+        if a is not None:
+            if a not in chosen:
+                chosen[a] = pool.pop(0) if pool else (rng.choice([10 ** 6, -10 ** 6]) + len(chosen)
+                                                      if rng.random() < 0.5 else "r-%d" % len(chosen))
+            m["wid"] = chosen[a]
+        if shapes and m["c"] == "other" and "ps" not in m:
+            m["ps"] = rng.randrange(PSHAPES)
+    return msgs
+
+
 def wire(m):
     """The body of the message as a client would send it."""
     c = m["c"]
     o = {"jsonrpc": "2.0", "method": meth_of(m)}
     if m.get("id") is not None:
-        o["id"] = m["id"]
+        o["id"] = m["wid"] if "wid" in m else m["id"]      # the JSON value the client uses for request m["id"]
     if c == "init":
         o["params"] = {"capabilities": {}, "workspaceFolders": [folder(u) for u in m["folders"]]}
     elif c == "inited":
@@ -192,7 +231,7 @@ def wire(m):
     elif c == "cancel":
         o["params"] = {"token": m["tok"]}
     elif c == "other":
-        o["params"] = {"v": m["v"]}
+        o["params"] = ps_value(m)
     elif c == "nbopen":
         o["params"] = {"notebookDocument": {"uri": nb_uri(m["n"]), "notebookType": "jupyter-notebook", "version": m["v"],
                                             "cells": [{"kind": 2, "document": doc_uri(m["cell"])}]},
@@ -346,13 +385,47 @@ class Sched14(sched.Sched):
         ctx = self._ctx14()
         onloop = threading.current_thread() is self.main
         self.log14.append([ctx["k"] if ctx else -1, name, part, fid, "loop" if onloop else "pool", bool(inj),
-                           [canon_arg(a) for a in args], self.snapshot(srv)])
+                           [self._canon14(ctx, a) for a in args], self.snapshot(srv)])
         if not onloop:
             job = getattr(self.tls, "job", None)
             if job is not None:
                 job.at_gate.set()
                 if not job.release.wait(20):
                     self.anomalies.append("job never released")
+
+    def _inv14(self):
+        """wire id -> the abstract request id of the case"""
+        inv = getattr(self, "_inv14_", None)
+        if inv is None:
+            inv = self._inv14_ = {}
+            for e in self.case["evs"]:
+                if e[0] == "recv" and e[1].get("id") is not None and "wid" in e[1]:
+                    inv[core.canon(idkey(e[1]["wid"]))] = e[1]["id"]
+        return inv
+
+    def _canon14(self, ctx, a):
+        """canon_arg, read against the message being served: the params a custom method's handler was given ARE
+        the params that were sent (whatever their JSON shape), a request id IS the id that was sent."""
+        m = ctx.get("m") if ctx else None
+        if m is not None and m["c"] == "other" and m.get("ps"):
+            exp = ps_value(m)
+            same = type(a) is type(exp) and a == exp and core.canon(a) == core.canon(exp)
+            return ["other", m["v"]] if same else ["?", "params-differ", type(a).__name__]
+        if isinstance(a, (int, str)) and not isinstance(a, bool):
+            inv = self._inv14()
+            k = core.canon(idkey(a))
+            if k in inv:
+                return ["id", inv[k]]
+            if inv:
+                return ["?", "unknown-id", type(a).__name__]
+        return canon_arg(a)
+
+    def _unwire(self, f):
+        inv = self._inv14()
+        if inv and f[0] == "resp" and f[1] is not None:
+            k = core.canon(idkey(f[1]))
+            f = [f[0], inv[k] if k in inv else ["?", "unknown-id", f[1]]] + list(f[2:])
+        return f
 
     # ---- pool items: like sched.Sched._start_job, but a work item that returns without reaching
     #      the gate (a coroutine function or a plain function on the pool) does not block the run
@@ -386,7 +459,7 @@ class Sched14(sched.Sched):
         if self.exit is not None or self.reader_task.done():
             return
         body = wire(e[1])
-        self.cur = {"k": self.nrecv, "who": ["not", self.nrecv], "b": {}}
+        self.cur = {"k": self.nrecv, "who": ["not", self.nrecv], "b": {}, "m": e[1]}
         self.nrecv += 1
         try:
             self.reader.feed_data(b"Content-Length: %d\r\n\r\n" % len(body) + body)
@@ -400,7 +473,7 @@ class Sched14(sched.Sched):
     def observe14(self):
         a, b = self.seen14
         self.seen14 = [len(self.writes), len(self.log14)]
-        out = [f for f in (sched.decode_frame(d) for d in self.writes[a:]) if f[0] == "resp"]
+        out = [self._unwire(f) for f in (sched.decode_frame(d) for d in self.writes[a:]) if f[0] == "resp"]
         return {"log": [list(x) for x in self.log14[b:]], "out": out}
 
 
@@ -479,7 +552,7 @@ class Real14(Sched14):
                                                  error_handler=priv.error_handler(self.server)))
             me = asyncio.current_task()
             for k, m in enumerate(msgs):
-                self.cur = {"k": k}
+                self.cur = {"k": k, "m": m}
                 a = len(self.log14)
                 body = wire(m)
                 reader.feed_data(b"Content-Length: %d\r\n\r\n" % len(body) + body)
@@ -1219,6 +1292,71 @@ def reinit_cases():
     return out
 
 
+def id_cases():
+    """Every JSON value a client may use as a request id (WIRE_IDS: 0, 1, negative, beyond 2**53 / 2**64, "", "0",
+    ordinary and uuid strings) x user handler kind {sync, async, thread above / below} x outcome {ok, raise} x
+    (a) a user feature reached by a request, and a request nobody handles, (b) a command, and a feature chained
+    after the built-in workspace/executeCommand, (c) features chained after the built-ins `initialize` and
+    `shutdown`.  The expected handler log does not depend on the id."""
+    import random
+    out = []
+    kinds = [(0, T_NONE), (1, T_NONE), (0, T_ABOVE), (0, T_BELOW)]
+    n = 0
+    for wi, wid in enumerate(WIRE_IDS):
+        for ki, (asy, thr) in enumerate(kinds):
+            for rz in ((wi + ki) % 2,):
+                for grp in "abc":
+                    n += 1
+                    par = n % 5
+                    ids = [0]
+                    if grp == "a":
+                        regs = [[0, "u/a", asy, par, thr, 1, rz]]
+                        key = [mk_msg("other", ids, name="u/a", id=1, v=4), mk_msg("other", ids, name="u/c", id=2, v=8)]
+                        msgs = [mk_msg("init", [2])] + key
+                    elif grp == "b":
+                        regs = [[1, "cmd.a", asy, par, thr, 1, rz]]
+                        if (wi + ki) % 2:
+                            regs.append([0, BUILTIN["exec"], kinds[(ki + 1) % 4][0], (par + 1) % 5, kinds[(ki + 1) % 4][1], 2, rz])
+                        key = [mk_msg("exec", ids, cmd="cmd.a"), mk_msg("exec", ids, cmd="cmd.none")]
+                        msgs = [mk_msg("init", [2])] + key
+                    else:
+                        regs = [[0, BUILTIN["init"], asy, par, thr, 1, rz], [0, BUILTIN["shutdown"], asy, (par + 2) % 5, thr, 2, rz]]
+                        key = [mk_msg("init", ids), mk_msg("other", ids, name="u/c", id=None), mk_msg("shutdown", ids)]
+                        msgs = key
+                    reqs = [m for m in key if m.get("id") is not None]
+                    target = reqs[(wi // 2 + ki // 2) % len(reqs)]                       # the request that carries `wid`
+                    concretise([target] + [m for m in msgs if m is not target], random.Random(n), first=wid, shapes=False)
+                    out.append({"t": "ids", "regs": regs, "tokens": [1], "evs": [["recv", m] for m in msgs] + DRAIN})
+    return out
+
+
+def params_cases():
+    """The params of a custom method in every JSON shape (object, array of 0 / 1 / 2 / 3 elements, number, null,
+    string) x user handler kind x {no server parameter, `ls`} x {notification, request}, under a user-only method
+    and chained after a built-in the protocol class adds: the handler is entered once, with what was sent."""
+    import random
+    out = []
+    kinds = [(0, T_NONE), (1, T_NONE), (0, T_ABOVE), (0, T_BELOW)]
+    n = 0
+    for ps in range(PSHAPES):
+        for ki, (asy, thr) in enumerate(kinds):
+            for par in ((ps + ki) % 2,):
+                for req in (0, 1):
+                    for proto in (0, 3):
+                        n += 1
+                        name = "u/x" if proto else "u/a"
+                        regs = [[0, name, asy, par, thr, 1, (n // 3) % 2]]
+                        msgs = [mk_msg("init", [0]), mk_msg("other", [0], name=name, id=5 if req else None, v=4 + n % 3, ps=ps),
+                                mk_msg("other", [0], name=name, id=6 if req else None, v=9, ps=(ps + 3) % PSHAPES)]
+                        if n % 2:
+                            concretise(msgs, random.Random(n))
+                        c = {"t": "params", "regs": regs, "tokens": [], "evs": [["recv", m] for m in msgs] + DRAIN}
+                        if proto:
+                            c["proto"] = proto
+                        out.append(c)
+    return out
+
+
 def sig_table():
     """(par | None, rest, ck): every first parameter incl. none at all x rest x every kind of callable
     incl. bound methods (which the decorators cannot register: setattr fails) - for the function-level
@@ -1339,6 +1477,9 @@ def scenario(rng):
     if len(reqs) >= 2 and rng.random() < 0.05:          # a client that reuses a request id
         a, b = rng.sample(reqs, 2)
         b["id"] = a["id"]
+    if rng.random() < 0.5:                # the client's own request ids / params shapes
+        import random
+        concretise(msgs, random.Random(rng.getrandbits(32)))
     case = {"t": "seq", "regs": regs, "tokens": [1, 2]}
     if rng.random() < 0.4:
         case["proto"] = rng.randrange(1, 5)
@@ -1545,6 +1686,8 @@ class C14(core.Property):
         cases.extend(proto_cases())
         cases.extend(notebook_cases())
         cases.extend(reinit_cases())
+        cases.extend(id_cases())
+        cases.extend(params_cases())
         # the public stop path: bursts of @thread messages, then shutdown and exit, observed after start_tcp returned
         cases.extend(burst_cases(chk.rng, chk.n(3, 24)))
         cases.extend(matrix_cases())
@@ -1639,6 +1782,7 @@ class C14(core.Property):
         """The tie or a proof broke: look for an input on which the property itself fails (judged by
         the reference S alone, inside the guard)."""
         cases = (shape_cases() + sig_shape_cases() + pair_cases() + proto_cases() + notebook_cases() + reinit_cases()
+                 + id_cases() + params_cases()
                  + matrix_cases() + interleave(chk.rng, [scenario(chk.rng) for _ in range(300)]))
         out = []
         for r in core.evaluate(self, chk, cases):
@@ -1732,6 +1876,7 @@ class C14(core.Property):
             c, msgs = scenario(chk.rng)
             rcases.append(dict(c, t="real", evs=msgs))
         rcases += [dict(c, t="real", evs=[e for e in c["evs"] if e[0] == "recv"]) for c in matrix_cases()[::3]]
+        rcases += [dict(c, t="real", evs=[e for e in c["evs"] if e[0] == "recv"]) for c in (id_cases() + params_cases())[::5]]
         import multiprocessing as mp
         with mp.get_context("fork").Pool(4) as pool:
             rgot = priv.collect(pool.map(_real_one, rcases, chunksize=8))
